@@ -91,6 +91,34 @@ CLAIMED = {
              "correspondence. Axioms: propext, Classical.choice, Quot.sound.",
         technique="Lean 4 invariant proofs over unbounded histories + differential correspondence",
         ref="DESIGN.md §5 C17"),
+    "C02": dict(
+        text="btcp only. Lean 4 proofs on a model of xcm_tp_btcp.c's connection machine, for every kernel behaviour: for "
+             "len>0 send returns 1..len or -1 (C02_rc_range), receive never exceeds capacity (C02_capacity), the bytes "
+             "handed to the kernel are exactly the concatenation of the accepted ranges over any history (inv_run), a "
+             "failed call (EAGAIN included, any state) hands nothing down (C02_failed_call_no_trace), hence under the "
+             "kernel's FIFO contract the received bytes are a prefix of / equal to the accepted bytes (C02_btcp_prefix). "
+             "Tie: the real xcm_tp_btcp.c #included with scripted send()/recv()/resolver/tconnect answers vs the model, "
+             "plus a wire monitor.",
+        note="btls is NOT claimed: the property's last clause is expected to be false for it (OpenSSL pending-record "
+             "retry, defect candidate F-02a, not yet re-established by a check in this round) and the Btls model is "
+             "not built yet. Blocking-mode bytestream_bsend (xcm.c) is not modelled. K-stream is an assumption.",
+        technique="Lean 4 invariant proof over unbounded histories + differential correspondence (btcp)",
+        ref="DESIGN.md §5 C02"),
+    "C06": dict(
+        category="proof",
+        text="Lean 4 proofs: in the btcp connection machine closed and bad(e) are absorbing under every later operation "
+             "and every environment answer (C06_btcp_sticky), closed => receive 0 / send,finish EPIPE, bad => the same "
+             "errno from all three (C06_closed_behaviour, C06_bad_same_errno), the discovering call reports the kernel's "
+             "errno (C06_discoverer_reports), establishment failures surface their errno (C06_establish_failure); at the "
+             "framing layer the lower layer's EOF/errno is passed up unchanged and repeatably, EPROTO is sticky, and no "
+             "partially sent message is ever delivered (C06_framing_passes_up, C07_eproto_sticky, C01_never_partial). "
+             "Tie: exhaustive fault enumeration (every errno x every first observer x every start state) on the real "
+             "xcm_tp_btcp.c and xcm_tp_tcp.c/xcm_tp_tls.c vs the model.",
+        note="Not inside this check: btls (process_ssl_event), ux, which errno tconnect.c selects for a failed "
+             "multi-address connect (C13), raw-socket resets at the kernel level. Axioms: propext, Classical.choice, "
+             "Quot.sound.",
+        technique="Lean 4 proofs (absorbing states, case analysis) + exhaustive fault enumeration correspondence",
+        ref="DESIGN.md §5 C06"),
 }
 
 PENDING_REASON = "not yet built in this round: no check is claimed for it (the design in DESIGN.md §5 stands; " \
